@@ -1,4 +1,7 @@
 """C16 — built-in helper functions and aliases keep their documented pointwise meaning."""
+import math
+from fractions import Fraction
+
 import numpy as np
 import pandas as pd
 
@@ -20,6 +23,19 @@ ASSUMPTIONS = [
     "calls; all spellings must give the same design (training and new frame), the design must have "
     "one term per call, and binary columns are judged by Spec.C16.binaryExpected, Treatment-coded "
     "columns by Spec.C04.decodeLabel (driver op c04_spec)",
+    "binary on float columns: columns whose distinct values lie close together (large magnitude with "
+    "steps of about one, i.e. relative differences below 1e-5; tiny values below 1e-8, with and "
+    "without 0.0; ordinary fractions) with the success value omitted, equal to a value of the column, "
+    "or absent but next to one (relative 1e-6 .. 3e-9 / a fraction of the spacing), written as a "
+    "decimal literal or passed as a variable; the values reach Spec.C16.binaryExpected as exact "
+    "integers (the exact fraction of every binary64 times the common denominator of the column and "
+    "the success value: injective and monotone, and the spec uses equality and order only), so "
+    "equality is exact and a close-but-absent success value must be refused",
+    "offset / I at prediction: besides the new frame as drawn, a new frame with the numeric dtypes the "
+    "other way round (fractions in the columns that are int64 at training time, int64 integers in the "
+    "float columns); offsets over integer typed columns, integer-valued expressions and calls "
+    "(offset(n), offset(n * 2), offset(s + n), offset(np.abs(kz)), ...); the column must hold the "
+    "values of the new frame (expected vector = the argument's arithmetic on the frame's columns)",
     "prop at prediction: response.evaluate_new_data is judged (driver op c16_column: the trials of "
     "every row of the new frame, a constant broadcast to its row count) on the new frame as drawn and "
     "on the same rows with the successes column missing in some or all rows (float NaN, nullable Int64 "
@@ -145,6 +161,75 @@ def lit(v):
     return repr(v) if isinstance(v, str) else str(v)
 
 
+def exact_levels(values, success):
+    """Float values -> the integer levels the driver reads (Level.n), exactly: every value (and the
+    success value) is the exact fraction of its binary64, multiplied by the common denominator of
+    all of them.  The map is injective and monotone, and Spec.C16.binaryExpected depends on the
+    values only through equality and order, so nothing is rounded and nothing is merged."""
+    fr = [Fraction(float(v)) for v in values]
+    fs = None if success is None else Fraction(float(success))
+    den = 1
+    for f in fr + ([] if fs is None else [fs]):
+        den = den * f.denominator // math.gcd(den, f.denominator)
+    return [int(f * den) for f in fr], (None if fs is None else int(fs * den))
+
+
+def close_float_columns(r, n):
+    """Float columns whose distinct values lie close together -- relative to their magnitude (large
+    values, steps of about one), in absolute terms (tiny values, possibly with 0.0), and ordinary
+    fractions -- and the success values tried on each: omitted, two values of the column, and values
+    that never occur but lie next to one that does (a relative 1e-6 / a fraction of the spacing)
+    -> ({column: values}, [(column, success or None, kind)])"""
+    def fill(levels):
+        xs = [r.choice(levels) for _ in range(n)]
+        for i, l in enumerate(levels):
+            xs[i % n] = l
+        r.shuffle(xs)
+        return xs
+    base = r.choice([250000.0, 1048576.0, 3.0e7, -4.0e6, 123456.5, 9007199254.0])
+    step = r.choice([1.0, 0.5, 2.0, 0.25])
+    big = [base + i * step for i in r.sample(range(-2, 3), 3)]
+    unit = r.choice([1e-9, 2.5e-10, 1e-12, -1e-9, 3e-11])
+    tiny = [unit * m for m in r.sample([1, 2, 3, 5, 7], 3)]
+    if r.random() < 0.4:
+        tiny[r.randrange(3)] = 0.0
+    plain = r.sample([-0.75, 0.5, 1.5, 2.25, 10.0, -3.0, 0.1], 3)
+    levels = {"fbig": big, "ftiny": tiny, "fplain": plain}
+    cols = {name: fill(lv_) for name, lv_ in levels.items()}
+    cases = []
+    for name, lv_ in levels.items():
+        cases.append((name, None, "omitted"))
+        for v in r.sample(lv_, 2):
+            cases.append((name, v, "present"))
+        v = r.choice(lv_)
+        if name == "ftiny":
+            near = v + r.choice([-1, 1]) * abs(unit) / r.choice([4, 8, 1024])
+        else:
+            near = v * (1 + r.choice([-1, 1]) * r.choice([1e-6, 1e-7, 3e-9])) if v else 1e-9
+        if near not in lv_:
+            cases.append((name, near, "absent, next to an observed value"))
+    return cols, cases
+
+
+INT_TYPED_OFFSETS = ("offset(n)", "offset(n * 2)", "offset(s + n)", "offset(kz)", "offset(np.abs(kz))",
+                     "offset(k - 1)", "offset(x)", "I(n * 2)")
+
+
+def fractional_new_frame(r, nd):
+    """The new frame with the dtypes of the numeric columns the other way round: the columns that
+    are integer typed at training time (n, s, k, kz) hold fractions, the float columns (x, z) hold
+    int64 integers"""
+    out = nd.copy()
+    m = len(out)
+    for c in ("n", "s", "k", "kz"):
+        vals = [r.randrange(-9, 40) / 4 for _ in range(m)]
+        vals[r.randrange(m)] = r.randrange(0, 9) + r.choice([0.25, 0.5, 0.75])
+        out[c] = np.array(vals, dtype=float)
+    for c in ("x", "z"):
+        out[c] = np.array([r.randrange(-6, 7) for _ in range(m)], dtype="int64")
+    return out
+
+
 # formula contexts in which two calls A, B of one helper meet -> names of the terms (besides the
 # intercept) of the part of the design the calls land in
 CONTEXT_TERMS = {
@@ -179,8 +264,10 @@ def design_views(dm, nd):
 
 def explore(tier, seed, res=None, replay=None):
     res = res or Result()
-    res.rule = ("generated frames x success values (present, absent, omitted; numeric and string) x "
-                "offsets (column, constant, call) x trial specifications (column, constant; valid and "
+    res.rule = ("generated frames x success values (present, absent, omitted; numeric and string; float "
+                "columns with close values: present, omitted, absent next to an observed value) x "
+                "offsets (column, constant, call, integer typed column / expression; new frames as drawn "
+                "and with the numeric dtypes swapped) x trial specifications (column, constant; valid and "
                 "invalid), at training time and on new frames (prop: also new frames whose successes are "
                 "missing or absent); alias pairs; formulas with two calls of "
                 "one helper differing in a keyword value, in every helper/alias spelling; each frame "
@@ -206,6 +293,13 @@ def explore(tier, seed, res=None, replay=None):
       nd["z"] = [r.randrange(-8, 9) / 4 for _ in range(len(nd))]
       nd["n"] = [r.randrange(3, 12) for _ in range(len(nd))]
       nd["nbig"] = nd["n"] + 250
+      fcols, fcases = close_float_columns(rng_for(seed, "c16", "floats", fi), len(df))
+      dfb = df.copy()
+      for cname, cvals in fcols.items():
+          dfb[cname] = np.array(cvals, dtype=float)
+      rsp = rng_for(seed, "c16", "float-spelling", fi)
+      fcases = [(c, sv, kind, rsp.choice(["binary", "B"]), rsp.random() < 0.5) for c, sv, kind in fcases]
+      ndf = fractional_new_frame(rng_for(seed, "c16", "fractional", fi), nd)
       mode, shadow_desc, shadow_objs = gen_shadow(rng_for(seed, "c16", "shadow", fi), len(df))
       # quick tier: the shadowed pass on every second frame (all frames when replaying / thorough)
       shadowed = tier != "quick" or replay is not None or (fi + seed) % 2 == 0
@@ -220,6 +314,9 @@ def explore(tier, seed, res=None, replay=None):
             c.update(kw)
             return c
         res.count("scope:" + ("clean" if scope is None else mode))
+        # quick tier: the close-float binary cases, the integer typed offsets and the dtype-swapped
+        # new frame in the clean scope only (thorough / replay: in both scopes)
+        wide = scope is None or tier != "quick" or replay is not None
         # ---- binary ------------------------------------------------------------------------------
         for var, succ in (("k", None), ("k", 2), ("k", 7), ("h", "'q'"), ("h", "'zz'"), ("f", None),
                           ("k", 1), ("co", None), ("cu", None), ("kz", 0), ("kz", None), ("co", "'mid'")):
@@ -235,37 +332,88 @@ def explore(tier, seed, res=None, replay=None):
                 s = None if succ is None else (succ.strip("'") if isinstance(succ, str) else succ)
                 add({"op": "c16_binary", "x": lv(df[var].tolist()), "success": s, "column": column,
                      "err": err or ""}, case)
+        # float columns whose values are close together: equality is exact (no tolerance), at both
+        # magnitudes; the success value is written as a decimal literal or passed as a variable
+        build_b = make_builder(None if scope is None else mode, shadow_objs,
+                               dict(ns, **{f"sv{i}": sv for i, (_, sv, _, _, _) in enumerate(fcases)
+                                           if sv is not None}))
+        for i, (var, sv, kind, fn, as_literal) in enumerate(fcases if wide else ()):
+            res.evaluations += 1
+            res.count("binary_float:" + kind)
+            if sv is None:
+                arg = f"{fn}({var})"
+            elif as_literal and "e" not in repr(sv) and float(repr(sv)) == sv:
+                arg = f"{fn}({var}, {sv!r})"
+            else:
+                arg = f"{fn}({var}, sv{i})"
+            case = mk(arg, column=var, values=sorted(set(fcols[var])), success=sv, success_is=kind)
+            try:
+                dm = build_b(f"y ~ {arg}", dfb)
+                tn = [t for t in dm.common.terms if t != "Intercept"]
+                column, err = [designs.frac(v) for v in col(dm, tn[0])], None
+            except Exception as e:  # noqa
+                column, err = None, type(e).__name__
+            xs, s = exact_levels(fcols[var], sv)
+            add({"op": "c16_binary", "x": xs, "success": s, "column": column, "err": err or ""}, case)
         # ---- offset / I -------------------------------------------------------------------------
-        for arg, expect, expect_new in (
-                ("offset(z)", df["z"].tolist(), nd["z"].tolist()),
-                ("offset(3)", [3.0] * len(df), [3.0] * len(nd)),
-                ("offset(0.5)", [0.5] * len(df), [0.5] * len(nd)),
+        for arg, fn in (
+                ("offset(z)", lambda d: d["z"]),
+                ("offset(3)", lambda d: [3.0] * len(d)),
+                ("offset(0.5)", lambda d: [0.5] * len(d)),
                 # a constant may be written as a signed number or a constant expression (D32)
-                ("offset(-1)", [-1.0] * len(df), [-1.0] * len(nd)),
-                ("offset(-0.5)", [-0.5] * len(df), [-0.5] * len(nd)),
-                ("offset(1 + 2)", [3.0] * len(df), [3.0] * len(nd)),
-                ("offset(2 * 3 - 1)", [5.0] * len(df), [5.0] * len(nd)),
-                ("offset(I(z * 2))", (df["z"] * 2).tolist(), (nd["z"] * 2).tolist()),
-                ("offset(np.abs(z))", df["z"].abs().tolist(), nd["z"].abs().tolist()),
-                ("I(x + z)", (df["x"] + df["z"]).tolist(), (nd["x"] + nd["z"]).tolist()),
-                ("I(x)", df["x"].tolist(), nd["x"].tolist()),
-                ("{x * z}", (df["x"] * df["z"]).tolist(), (nd["x"] * nd["z"]).tolist())):
+                ("offset(-1)", lambda d: [-1.0] * len(d)),
+                ("offset(-0.5)", lambda d: [-0.5] * len(d)),
+                ("offset(1 + 2)", lambda d: [3.0] * len(d)),
+                ("offset(2 * 3 - 1)", lambda d: [5.0] * len(d)),
+                ("offset(I(z * 2))", lambda d: d["z"] * 2),
+                ("offset(np.abs(z))", lambda d: d["z"].abs()),
+                # integer typed at training time (column / integer-valued expression / call)
+                ("offset(n)", lambda d: d["n"]),
+                ("offset(n * 2)", lambda d: d["n"] * 2),
+                ("offset(s + n)", lambda d: d["s"] + d["n"]),
+                ("offset(kz)", lambda d: d["kz"]),
+                ("offset(np.abs(kz))", lambda d: d["kz"].abs()),
+                ("offset(k - 1)", lambda d: d["k"] - 1),
+                ("offset(x)", lambda d: d["x"]),
+                ("I(n * 2)", lambda d: d["n"] * 2),
+                ("I(x + z)", lambda d: d["x"] + d["z"]),
+                ("I(x)", lambda d: d["x"]),
+                ("{x * z}", lambda d: d["x"] * d["z"])):
+            if not wide and arg in INT_TYPED_OFFSETS:
+                continue
             res.evaluations += 1
             case = mk(arg)
+            name = arg if not arg.startswith("{") else "I(" + arg[1:-1] + ")"
             try:
                 dm = build(f"y ~ f + {arg}", df)
-                name = arg if not arg.startswith("{") else "I(" + arg[1:-1] + ")"
                 c0 = [designs.frac(v) for v in col(dm, name)]
-                new = dm.common.evaluate_new_data(nd)
-                c1 = [designs.frac(v) for v in np.asarray(new[name], dtype=float).reshape(len(nd), -1)[:, 0]]
             except Exception as e:  # noqa
                 res.failures.append({"case": case, "impl": type(e).__name__, "expected": "a column",
                                      "finding": None, "why": f"{arg} raised {type(e).__name__}"})
                 continue
-            add({"op": "c16_column", "expected": [designs.frac(v) for v in expect], "column": c0},
+            add({"op": "c16_column", "expected": [designs.frac(v) for v in list(fn(df))], "column": c0},
                 dict(case, when="training"))
-            add({"op": "c16_column", "expected": [designs.frac(v) for v in expect_new], "column": c1},
-                dict(case, when="prediction"))
+            # the values of the NEW frame, whatever the dtype of the column was at training time:
+            # the frame as drawn, and the frame with fractions in the integer typed columns (and
+            # integers in the float columns)
+            for tag, frame in (("as drawn", nd), ("dtypes swapped: fractions in n, s, k, kz; int64 x, z", ndf)):
+                if frame is ndf and not wide:
+                    continue
+                pcase = dict(case, when="prediction")
+                if tag != "as drawn":
+                    pcase["new_frame"] = tag
+                    res.evaluations += 1
+                try:
+                    new = dm.common.evaluate_new_data(frame)
+                    c1 = [designs.frac(v) for v in
+                          np.asarray(new[name], dtype=float).reshape(len(frame), -1)[:, 0]]
+                except Exception as e:  # noqa
+                    res.failures.append({"case": pcase, "impl": type(e).__name__, "expected": "a column",
+                                         "finding": None,
+                                         "why": f"{arg}: evaluate_new_data raised {type(e).__name__}"})
+                    continue
+                add({"op": "c16_column", "expected": [designs.frac(v) for v in list(fn(frame))],
+                     "column": c1}, pcase)
         # ---- prop --------------------------------------------------------------------------------
         bad = df.copy()
         bad["s2"] = bad["s"] + 0.5
@@ -435,6 +583,10 @@ def explore(tier, seed, res=None, replay=None):
                                         f"({case.get('when', 'training')}): Spec.C16 column predicate "
                                         "false on the returned column"})
         elif not sp.get("holds"):
+            if rq.get("op") == "c16_binary":
+                colm = rq.get("column")
+                sp = dict(sp, returned=(rq.get("err") or None) if colm is None else
+                          [None if v is None else v[0] / v[1] for v in colm])
             res.failures.append({"case": case, "impl": sp, "expected": "Spec.C16", "finding": None,
                                  "why": f"{case['helper']}: pointwise meaning violated "
                                         f"({case.get('when', 'training')})"})
